@@ -296,8 +296,10 @@ SB_extends(SB* self, PyObject* other)
         return NULL;
     }
 
-    if (PyDict_GetItem(implied, other) != NULL)
+    if (PyDict_GetItemWithError(implied, other) != NULL)
         Py_RETURN_TRUE;
+    if (PyErr_Occurred()) /* e.g. unhashable: ``other in self._implied`` */
+        return NULL;
     Py_RETURN_FALSE;
 }
 
